@@ -295,9 +295,30 @@ def execute(plan, out, log):
                     return
                 # tracking state exactly as re-initialisation left it (the probes below disturb it)
                 tracker = [(c, c.n_full_rotations, c.previous_quadrant) for c in copy_sys.contributions if hasattr(c, "n_full_rotations")]
+                # angle each tracked joint of the copy reports at the restart state as re-initialisation left it
+                a_copy = {}
+                for c, nfr, pq in tracker:
+                    a_copy[c.name] = float(c.l(tk, qk[c.qDOF]))
+                    c.n_full_rotations, c.previous_quadrant = nfr, pq
+                a_reset = {}
+                for c, nfr, pq in tracker:
+                    c.reset()
+                    a_reset[c.name] = float(c.l(tk, qk[c.qDOF]))
+                    c.n_full_rotations, c.previous_quadrant = nfr, pq
                 # ---------------- oracle 2: model identity
                 st = body_states(B, tk, qk, uk)
                 st["angle0"] = tracked_angles(B, ref, k)
+                for jj, ang in st["angle0"].items():
+                    nmj = B.joints[jj].name
+                    if nmj in a_copy and abs(a_copy[nmj] - ang) > 1e-7 and abs(a_copy[nmj] - a_reset[nmj]) > 1e-9:
+                        out["violations"].append(
+                            violation(
+                                "model_changed",
+                                "Revolute/stale_tracking/angle",
+                                f"split {k} (t={tk:.4f}): re-initialised revolute joint {jj} reports angle {a_copy[nmj]:.6f} at the restart state; accumulated angle of the run {ang:.6f}, a freshly reset joint {a_reset[nmj]:.6f}: the copy kept tracking state that does not belong to its new initial state",
+                            )
+                        )
+                        return
                 Bh = build(scene, state=st, options=SolverOptions(compute_consistent_initial_conditions=False))
 
                 class _C:
@@ -334,7 +355,9 @@ def execute(plan, out, log):
                             sig = f"{culprit(B, f)}/{f}"
                             if f in ("h", "la_c", "la_tau", "E_pot") and rev_law:
                                 # is the difference explained by lost full turns of a tracked revolute angle?
-                                turns = []
+                                # The open finding is exactly: the copy reports what a joint whose tracking was
+                                # reset reports (angle modulo 2 pi).  Any other angle is a different defect.
+                                turns, other = [], []
                                 for jj, ang in st["angle0"].items():
                                     jc = name_to[B.joints[jj].name]
                                     copy_sys.reset()
@@ -342,6 +365,17 @@ def execute(plan, out, log):
                                     n2pi = (ang - lc) / (2 * np.pi)
                                     if abs(n2pi - np.round(n2pi)) < 1e-6 and np.round(n2pi) != 0:
                                         turns.append((jj, int(np.round(n2pi))))
+                                    if abs(a_copy[jc.name] - lc) > 1e-9 and abs(a_copy[jc.name] - ang) > 1e-7:
+                                        other.append((jj, a_copy[jc.name], lc, ang))
+                                if other:
+                                    out["violations"].append(
+                                        violation(
+                                            "model_changed",
+                                            f"Revolute/stale_tracking/{f}",
+                                            f"split {k} (t={tk:.4f}): after re-initialisation revolute joint(s) report an angle that is neither the accumulated one nor that of a freshly reset joint: {[(jj, f'reported {a:.6f}', f'reset joint {l:.6f}', f'accumulated {g:.6f}') for jj, a, l, g in other]}; {f} differs by {d:.3e}",
+                                        )
+                                    )
+                                    return
                                 if turns:
                                     out["violations"].append(
                                         violation(
@@ -419,6 +453,9 @@ def execute(plan, out, log):
                         # (relative rotation in (-pi/2, 3pi/2)) during the second leg is the open turn-count finding
                         lost = []
                         for jj in st["angle0"]:
+                            jc = name_to[B.joints[jj].name]
+                            if abs(a_copy[jc.name] - a_reset[jc.name]) > 1e-9:
+                                continue  # not the open finding: the copy did not start from a reset tracking state
                             a0 = B.scene["joints"][jj].get("angle0", 0.0)
                             rel = [tracked_angles(B, ref, i)[jj] - a0 for i in range(k, N + 1)]
                             if min(rel) < -0.5 * np.pi + 0.1 or max(rel) > 1.5 * np.pi - 0.1:
